@@ -22,7 +22,7 @@ have no encoding: outside, left to tests/test_init.py.
 """
 import io
 
-from ..core import SymStr, SymInt, SymBytes, B, zand, Ctx, independent_of, Unsupported
+from ..core import SymStr, SymInt, SymBytes, B, zand, znot, Ctx, independent_of, Unsupported
 from .common import Harness, Outcome, dialect, run_property, str_eq, veq
 from . import rt
 from .c04 import same as same_module, snap
@@ -71,11 +71,23 @@ class EndTail(Harness):
 
     @property
     def bounds(self):
-        return ("loader %s, label %s + END + a symbolic separator (white space or ';') + %d unconstrained symbolic "
-                "characters over the whole alphabet" % (self.dialect, self.label, self.n))
+        return ("loader %s, label %s + END + a symbolic separator (%s) + %d unconstrained symbolic "
+                "characters over the whole alphabet" % (self.dialect, self.label, "white space or ';'" if getattr(
+                    self, "sep", "ws") == "ws" else "NUL / any character outside the dialect's character set", self.n))
 
     def inputs(self, ctx):
-        sep = SymStr([ctx.fresh_char("sep", ((9, 13), (32, 32), (59, 59)))])
+        if getattr(self, "sep", "ws") == "forbidden":
+            # END directly followed by a character that cannot belong to any lexeme: NUL padding, or (strict
+            # grammars) any character outside the dialect's character set - the first byte of attached data
+            c = ctx.fresh_char("sep")
+            if self.dialect == "Omni":
+                ctx.assume(c.z == 0)
+            else:
+                from .c15 import spec_allowed
+                ctx.assume(znot(spec_allowed(self.dialect, c.z)))
+            sep = SymStr([c])
+        else:
+            sep = SymStr([ctx.fresh_char("sep", ((9, 13), (32, 32), (59, 59)))])
         return {"sep": sep, "tail": ctx.fresh_str(self.n, "t")}
 
     def prop_fn(self, L, inp):
@@ -303,6 +315,7 @@ def obligations(tier):
                 if d == "Omni" and n > (2 if quick else 3):
                     continue
                 obs.append(EndTail(dialect=d, label=lab, n=n))
+            obs.append(EndTail(dialect=d, label=lab, n=1 if quick else 2, sep="forbidden"))
     for entry in ("decode_by_char", "get_text_binary", "get_text_text", "load_binary", "load_text"):
         for n in ((0, 1, 3) if quick else (0, 1, 2, 3, 4, 6)):
             obs.append(Streams(entry=entry, label="flat", n=n))
